@@ -189,20 +189,16 @@ def size_terms(f, x):
     raise AnalysisBroken('%s: size expression not recognised: %s' % (f.n, str(x)[:150]))
 
 
-def run(fx, tier):
-    v = Verdict('C17', tier)
-    v.rule('R-TABLE', 'generated static_assert witnesses for property ids, value types and per-packet property sets')
-    v.rule('R-SCHEMA', 'symbolic evaluation of each encode_* into a wire schema == spec/packets.json; Remaining Length covers exactly what follows')
-    v.rule('R-EFFECT', 'byte_size() == bytes appended by encode() for every encoder building block (per path)')
-    n_w = run_witness(v)
-
+def encoder_schema_rules(fx, v, prop='C17', only=None):
+    """wire schema of encode_* functions vs spec/packets.json (shared: C17 checks all, the request properties
+    check the encoder of their own packet)"""
     with open(os.path.join(VERIF, 'spec', 'packets.json')) as fh:
         spec = json.load(fh)
     seen = set()
     for f in fx.fns:
         if not f.q.startswith('boost::mqtt5::encoders::encode_') or f.lam or f.n in seen:
             continue
-        if f.n not in spec:
+        if f.n not in spec or (only is not None and f.n not in only):
             continue
         seen.add(f.n)
         v.saw(f)
@@ -233,13 +229,13 @@ def run(fx, tier):
                 detail = 'type %s flag bits %s (MQTT 5: type %d, DUP/QoS/RETAIN = %s)' % (tval, rest, sp['type'], want)
             ok = ok and tval == sp['type']
         v.check(ok, 'R-SCHEMA', '%s:fixed-header' % f.n, detail or 'first byte is not a 4+4 bit flag composition',
-                key='C17:R-SCHEMA:%s:fixed-header' % f.n, where=where)
+                key=prop + ':R-SCHEMA:%s:fixed-header' % f.n, where=where)
         # ---- remaining length + body
         body = msg[1:]
         if sp['remaining_length'] == 'zero':
             ok = len(body) == 1 and body[0]['kind'] == 'byte' and body[0]['src'] == {'const': 0}
             v.check(ok, 'R-SCHEMA', '%s:remaining-length' % f.n, 'Remaining Length byte is the constant 0, nothing follows',
-                    key='C17:R-SCHEMA:%s:remaining-length' % f.n, where=where)
+                    key=prop + ':R-SCHEMA:%s:remaining-length' % f.n, where=where)
             continue
         ok_rl = bool(body) and body[0]['kind'] == 'varlen'
         rl_detail = 'second field is not a variable byte integer'
@@ -262,21 +258,21 @@ def run(fx, tier):
                     if ok_rl:
                         ok_loop, loop_detail = check_loops(f, extra[0], sp, v)
                         v.check(ok_loop, 'R-SCHEMA', '%s:list-payload' % f.n, loop_detail,
-                                key='C17:R-SCHEMA:%s:list-payload' % f.n, where=where)
+                                key=prop + ':R-SCHEMA:%s:list-payload' % f.n, where=where)
         v.check(ok_rl, 'R-SCHEMA', '%s:remaining-length' % f.n, rl_detail,
-                key='C17:R-SCHEMA:%s:remaining-length' % f.n, where=where)
+                key=prop + ':R-SCHEMA:%s:remaining-length' % f.n, where=where)
         got_body = body[1:] if body and body[0]['kind'] == 'varlen' else body
         want_body = sp['body']
         if len(got_body) != len(want_body):
             v.fail('R-SCHEMA', '%s:fields' % f.n, 'body has %d fields %s, MQTT 5 §%s has %d' % (
                 len(got_body), [g['kind'] for g in got_body], sp.get('section'), len(want_body)),
-                key='C17:R-SCHEMA:%s:field-count' % f.n, where=where)
+                key=prop + ':R-SCHEMA:%s:field-count' % f.n, where=where)
         else:
             for k, (g, w) in enumerate(zip(got_body, want_body)):
                 err = cmp_field(g, w)
                 v.check(err is None, 'R-SCHEMA', '%s:field%d:%s' % (f.n, k, w['kind']),
                         'field %d is %s from %s' % (k, w['kind'], w.get('src')) if err is None else 'field %d: %s' % (k, err),
-                        key='C17:R-SCHEMA:%s:field%d' % (f.n, k), where=where)
+                        key=prop + ':R-SCHEMA:%s:field%d' % (f.n, k), where=where)
         if f.n == 'encode_publish':
             ok = False
             for b, i, l, c in f.calls():
@@ -289,11 +285,21 @@ def run(fx, tier):
                     ok = n_ == 'used_packet_id' and isinstance(a, dict) and a.get('dk') == 'param' and \
                         [p['d'] for p in f.params].index(a['d']) == 0 and g_ok
             v.check(ok, 'R-SCHEMA', 'encode_publish:packet-id-presence', 'the packet identifier is present iff QoS != 0 and is the given one',
-                    key='C17:R-SCHEMA:encode_publish:packet-id-presence', where=where)
-    missing = set(k for k in spec if k.startswith('encode_')) - seen
+                    key=prop + ':R-SCHEMA:encode_publish:packet-id-presence', where=where)
+    missing = set(k for k in spec if k.startswith('encode_') and (only is None or k in only)) - seen
     if missing:
         raise AnalysisBroken('encoders not instantiated / not found: %s' % sorted(missing))
 
+
+
+def run(fx, tier):
+    v = Verdict('C17', tier)
+    v.rule('R-TABLE', 'generated static_assert witnesses for property ids, value types and per-packet property sets')
+    v.rule('R-SCHEMA', 'symbolic evaluation of each encode_* into a wire schema == spec/packets.json; Remaining Length covers exactly what follows')
+    v.rule('R-EFFECT', 'byte_size() == bytes appended by encode() for every encoder building block (per path)')
+    n_w = run_witness(v)
+
+    encoder_schema_rules(fx, v, 'C17')
     import effect
     effect.run(fx, v)
     v.expect_min('R-TABLE', 100, 'static_assert rows')
